@@ -1,6 +1,7 @@
 //! Verification harness for Simmypeet/qbice (see /verif/DESIGN.md).
 #![allow(clippy::all)]
 
+pub mod codec;
 pub mod dsl;
 pub mod eng;
 pub mod hist;
